@@ -1,8 +1,10 @@
 //! fv: drivers that run the real fibre code and record histories for TLC.
 
+mod ctl;
 mod dynh;
 mod hist;
 mod raw;
+mod sched;
 mod seq;
 
 use std::collections::HashMap;
@@ -44,6 +46,7 @@ fn main() {
   std::panic::set_hook(Box::new(|_| {}));
   match cmd.as_str() {
     "chan-seq" => chan_seq(&args),
+    "chan-sched" => chan_sched(&args),
     _ => {
       eprintln!("usage: fv <chan-seq> [--key value]...");
       std::process::exit(2);
@@ -126,4 +129,53 @@ fn chan_seq(a: &Args) {
   }
   w.flush().unwrap();
   println!("{}", serde_json::json!({"histories": n_hist, "hung": n_hung, "panics": n_panic}));
+}
+
+fn chan_sched(a: &Args) {
+  let flavours = {
+    let l = a.list("flavours", "all");
+    if l == ["all"] { dynh::FLAVOURS.iter().map(|f| f.name.to_string()).collect() } else { l }
+  };
+  let caps: Vec<usize> = a.list("caps", "1,2").iter().map(|s| s.parse().unwrap()).collect();
+  let runs = a.num("runs", 20);
+  let seed = a.num("seed", 1);
+  let shapes = a.list("shapes", "drain,leave");
+  let strategies = a.list("strategies", "random,pct");
+  let kf = a.list("kf", "");
+  let out = a.get("out", "/dev/stdout");
+  let trace = a.num("trace", 0) == 1;
+  let mut w = std::io::BufWriter::new(std::fs::File::create(&out).expect("create out"));
+  let (mut n, mut blocked, mut stuck, mut leaked, mut steps, mut step_limit) = (0u64, 0u64, 0u64, 0u64, 0u64, 0u64);
+  for (fi, fl) in flavours.iter().enumerate() {
+    for r in 0..runs {
+      let ru = r as usize;
+      let cfg = sched::Cfg {
+        flavour: fl.clone(),
+        cap: caps[ru % caps.len()],
+        producers: 1 + (ru / 2) % 2,
+        consumers: 1 + (ru / 4) % 2,
+        items: 1 + (ru / 3) % 3,
+        seed: seed.wrapping_mul(1_000_003).wrapping_add((fi as u64) << 32).wrapping_add(r),
+        strategy: strategies[ru % strategies.len()].clone(),
+        shape: shapes[(ru / strategies.len()) % shapes.len()].clone(),
+        kf: kf.clone(),
+        trace,
+      };
+      let st = sched::run_scenario(&cfg);
+      n += 1;
+      steps += st.outcome.steps;
+      if !st.outcome.blocked.is_empty() && !st.outcome.all_done { blocked += 1; }
+      if st.outcome.stuck { stuck += 1; }
+      if st.outcome.step_limit { step_limit += 1; }
+      leaked += st.leaked as u64;
+      for r in &st.records {
+        writeln!(w, "{r}").unwrap();
+      }
+      if trace {
+        for t in &st.trace { writeln!(w, "#{t}").unwrap(); }
+      }
+    }
+  }
+  w.flush().unwrap();
+  println!("{}", serde_json::json!({"histories": n, "blocked": blocked, "stuck": stuck, "step_limit": step_limit, "leaked_threads": leaked, "steps": steps}));
 }
